@@ -23,6 +23,41 @@ CHECKS = {
                      'parties at once on symbolic shares (degree-t sharing decided exactly on polynomial normal forms) and all operations again in '
                      'concrete m-party runs with ghost checks at every output/_reshare',
                 note=B_NOTE + '; _is_zero (Monte-Carlo test) and secure gcd family only in concrete runs', technique='modular symbolic execution of the real functions against contracts (bounded), z3'),
+    'C02': dict(engine='symx+native-enum', category='other', design_ref='DESIGN.md §5 C02',
+                text='bounded contract verification: trunc (floor-or-ceiling contract), exact +,-,neg, comparisons, products within one unit, public-float '
+                     'factors within 2(1+|x|) units, checked on symbolic fixed-point values through the real code (value mode, z3); division/reciprocal/sin/cos/powers on enumerated small types',
+                note=B_NOTE, technique='modular symbolic execution of the real functions against contracts (bounded), z3; bounded enumeration for division/sincos'),
+    'C03': dict(engine='symx', category='other', design_ref='DESIGN.md §5 C03',
+                text='data-structure invariant "integral flag true => value whole" checked as postcondition of every flag-declaring function for every '
+                     'assignment of argument flags consistent with the invariant, on symbolic values through the real code; found and led to the repair of the element-0 flag defect',
+                note=B_NOTE + '; invariant assumed for arguments (induction over the call structure); lists of length 2', technique='modular symbolic execution against a data-structure invariant (bounded), z3'),
+    'C06': dict(engine='symx', category='other', design_ref='DESIGN.md §5 C06',
+                text='bounded contract verification of convert/_convert for integer and fixed-point type pairs on symbolic values: value preserved when it fits, '
+                     'rounding to a neighbour for narrowing fractions, no wrap in either field for any mask allowed by the bound arithmetic',
+                note=B_NOTE + '; type pairs enumerated', technique='modular symbolic execution of the real functions against contracts (bounded), z3'),
+    'C20': dict(engine='native-enum', category='other', design_ref='DESIGN.md §5 C20',
+                text='executable contracts of every field operator (binary, reflected, in-place, int/polynomial mixing, **, shifts, ==/hash, field axioms) evaluated '
+                     'exhaustively on the real classes for all elements of the listed prime, binary and odd-characteristic extension fields against independent table arithmetic',
+                note='bounded: exhaustive inside the listed fields only; one known finding (odd-characteristic extension-field shifts) is listed in known_findings.txt',
+                technique='bounded exhaustive contract evaluation on the real functions'),
+    'C21': dict(engine='native-enum', category='other', design_ref='DESIGN.md §5 C21',
+                text='is_sqr / sqrt / inverse sqrt contracts evaluated for all elements of all prime fields p <= 257 and the listed extension/binary fields against brute-force squares',
+                note='bounded: exhaustive inside the listed fields only', technique='bounded exhaustive contract evaluation on the real functions'),
+    'C22': dict(engine='native-enum', category='other', design_ref='DESIGN.md §5 C22',
+                text='byte codec, pickle and signed/unsigned view contracts evaluated on the real classes over the listed fields and element lists',
+                note='bounded: listed fields, list lengths 0..5; GF((p,n,w)) with w outside range(p) outside the domain', technique='bounded exhaustive contract evaluation on the real functions'),
+    'C23': dict(engine='native-enum', category='other', design_ref='DESIGN.md §5 C23',
+                text='ring laws, divmod, gcd, gcdext, invert, powmod and representation agreement evaluated exhaustively on the real polynomial classes for all '
+                     'polynomial pairs of bounded degree over small primes against independent reference arithmetic; found and led to repairs of powmod and reverse',
+                note='bounded: degrees and primes listed in the evidence; one known finding (BinaryPolynomial.__call__ at even x, pinned by an existing test) in known_findings.txt',
+                technique='bounded exhaustive contract evaluation on the real functions'),
+    'C24': dict(engine='native-enum', category='other', design_ref='DESIGN.md §5 C24',
+                text='irreducibility test, next_irreducible, find_irreducible and the GF gate evaluated for all polynomials of bounded degree over small primes against '
+                     'brute-force factorisation; found and led to the repair of next_irreducible skipping x',
+                note='bounded: degrees and primes listed in the evidence; monic reading of "smallest irreducible"', technique='bounded exhaustive contract evaluation on the real functions'),
+    'C26': dict(engine='native-enum', category='other', design_ref='DESIGN.md §5 C26',
+                text='find_prime_root and _pfield contracts (primality, bit length, Blum, root order, field size vs l+f+k+1) evaluated for all l in 2..64, listed n and k',
+                note='bounded: l <= 64 (thorough 256); one known finding (l <= 2 with n > 2) in known_findings.txt; m = 1 runtime', technique='bounded exhaustive contract evaluation on the real functions'),
     'C25': dict(engine='pyvc+native-enum', category='other', design_ref='DESIGN.md §5 C25',
                 text='contract verification of the gmpy stubs: invert proved for all integers by engine A (inverse, range, raises exactly when '
                      'gcd != 1); every helper has its executable contract evaluated on the real function over a stated finite domain (bounded)',
